@@ -44,7 +44,7 @@ package inmem
 //@   inline
 
 //@ func New() kvs.Storage
-//@   props C02 C03 C06
+//@   props C02 C03 C06 C07
 //@   ensures r0 != nil && fresh(r0)
 
 //@ func (s *service) Create(ctx context.Context, record kvs.Record) (string, error)
@@ -184,7 +184,7 @@ package inmem
 //@ pred (s *service) othersSince(key string) = forall(j, string, j != key ==> has(s.verChange, j) == atLock(has(s.verChange, j)) && (has(s.verChange, j) ==> s.verChange[j] == atLock(s.verChange[j]) && s.verChange[j].waiters == atLock(s.verChange[j].waiters) && closed(s.verChange[j].done) == atLock(closed(s.verChange[j].done))))
 
 //@ func (s *service) WaitForVersionChange(ctx context.Context, key string, ver string) error
-//@   props C07
+//@   props C07 C02
 //@   requires s.wf() && ctx != nil
 //@   modifies everything
 //@   ensures r0 == nil ==> has(s.recs, key) && s.recs[key].Version != ver && !expiredAt(s.recs[key], clock)
